@@ -182,8 +182,13 @@ func c04Inputs(g *Gen, n int) [][]byte {
 
 // allocation allowance per decoding call: a fixed part (encoding/gob compiles a decoder per type on first use, the
 // fastjson parser grows its value cache) plus a part proportional to the input
+//
+// encoding/gob (outside the package; modelled, not verified) reads a message whose length prefix announces up to 1 GB
+// in chunks of 10 MB, so a stream that is cut right after a large prefix costs one chunk per decoding attempt whatever
+// its length; the package-level GobDecode makes up to four attempts. That constant is part of the gob allowance.
 const (
 	c04MemBase    = 4 << 20
+	c04MemBaseGob = 4<<20 + 5*(10<<20+1<<20)
 	c04MemPerByte = 4096
 )
 
@@ -423,7 +428,11 @@ func runC04(seed int64, n int, tier string, outDir string) (*Report, error) {
 				v, err = e.call(in)
 			}()
 			dt := time.Since(t0)
-			if da := heapAllocs() - a0; da > c04MemBase+c04MemPerByte*uint64(len(in)) {
+			base := uint64(c04MemBase)
+			if strings.Contains(e.name, "Gob") || strings.Contains(e.name, "Binary") {
+				base = c04MemBaseGob
+			}
+			if da := heapAllocs() - a0; da > base+c04MemPerByte*uint64(len(in)) {
 				rep.Violate(Violation{Op: e.name, Input: fmt.Sprintf("%q", trunc(string(in), 300)), Expected: "memory proportional to the input", Observed: fmt.Sprintf("%d bytes allocated for %d bytes of input", da, len(in)), Index: ii})
 			} else if r := da / uint64(len(in)+1); r > c04MaxRatio {
 				c04MaxRatio = r
